@@ -18,7 +18,10 @@ SPEC = dict(
     technique="deterministic simulation: seeded lock-level scheduler over instrumented swarm stack on simnet, scripted per-address reachability, history oracles",
     design_ref="DESIGN.md section 5 (C05)",
     quick_s=50, thorough_s=600,
-    rule=("one run = one tape: stratum QUIC (1/4: real QUIC transport over simulated UDP with served / dead / wrong-peer / "
+    rule=("one run = one tape: 'connections vanish' stratum (1/4 of runs without hole punching: D's connections are closed while "
+          "callers are inside, by a Connected notifiee at once | after 1-30 ms, by a local or a remote close task at drawn "
+          "instants; optionally the application re-dials from inside its Disconnected handler; fault conn-closed-while-callers-inside); "
+          "stratum QUIC (1/4: real QUIC transport over simulated UDP with served / dead / wrong-peer / "
           "first-datagrams-lost addresses and drawn loss, duplication, reordering; half of them with hole punching: "
           "simultaneous-connect(server) callers punching towards a target that dials the dialer at instants around the end "
           "of the punch, dialer listening | dial-only with reuseport on | off, overlapping punches, real resource manager) | TCP + stubs; strata (exact|filters, all-fail, slow worker, back-off rejoin, stalls, insecure|noise, latency), per-peer cap 1-8, FD cap "
@@ -37,7 +40,8 @@ SPEC = dict(
             "shared-success-asserted", "quic-dial-succeeded", "quic-dial-succeeded-after-lost-datagrams",
             "quic-dead-address-handshake-timeout", "quic-dead-address-dial-timeout", "tcp-dial-staggered-behind-quic-in-flight",
             "quic-dial-cancelled-when-tcp-won", "tcp-dial-cancelled-when-quic-won", "quic-hole-punch-dial",
-            "caller-got-quic-connection", "hole-punch-got-the-inbound-connection", "hole-punch-gave-up-at-instant-of-target-dial",
+            "caller-got-quic-connection", "caller-invoked-after-close-while-worker-alive",
+            "caller-invoked-after-close-got-another-connection", "address-redialed-after-its-connection-closed", "hole-punch-got-the-inbound-connection", "hole-punch-gave-up-at-instant-of-target-dial",
             "hole-punch-served-at-instant-of-target-dial", "overlapping-hole-punch-turned-away", "target-dialed-dialer",
             "outcome-ok", "outcome-dial-error", "outcome-ctx-cancelled", "outcome-ctx-deadline"],
     real=["QUIC stratum: p2p/transport/quic, quicreuse, quic-go over simnet's UDP model — instrumented",
